@@ -71,8 +71,8 @@ func genCases(seed int64, tier string) []core.Case {
 	nPart, perPart := 32, 70 // 2240 charts
 	nBar, perBar := 32, 4    // 128 installs
 	if tier == "thorough" {
-		nPart, perPart = 160, 400 // 64000 charts
-		nBar, perBar = 160, 15    // 2400 installs
+		nPart, perPart = 480, 400 // 192000 charts
+		nBar, perBar = 640, 15    // 9600 installs
 	}
 	for i := 0; i < nPart; i++ {
 		out = append(out, core.Case{ID: fmt.Sprintf("part-%d", i), Data: core.J(caseData{Kind: "partition", Seed: rng.Int63(), N: perPart})})
